@@ -54,7 +54,7 @@ out.append(f"{n_caught} of {n_mut} mutants are reported by at least one check. T
 out.append("Mutants that were first **missed** and led to a stronger generator or oracle (then re-run): `c14-ownership-compare-former-too` (the ownership-transfer message now varies its code-id fields), `c13-accept-two-dangling` (router worlds now donate to the router, so a disconnected hop can execute), `c13-last-hop-drops-recipient-on-long-routes` (written after `c13-intermediate-hop-carries-to` proved equivalent).\n")
 
 # ---- seeded -----------------------------------------------------------------------------------------
-out.append("### D.2 Independently seeded changes (`seeded/<ID>/`, `<ID>b`, `<ID>c`: two per property, three for thirteen of them)\n")
+out.append("### D.2 Independently seeded changes (`seeded/<ID>/`, `<ID>b`, `<ID>c`: three per property)\n")
 out.append("Each change was produced by a fresh sub-agent that was given only the text of one property and its own scratch git worktree of `/repo` (nothing from `/verif`), and asked for a change that breaks the property, still compiles, keeps the existing 101 tests green and needs something specific to manifest, plus a demonstration test. Round 2 (`<ID>b`) and round 3 (`<ID>c`) agents were additionally told in one line each what the earlier changes for the same property were, and asked for something materially different. Every change was confirmed by `seeded/verify.sh` (demonstration passes on the clean tree, fails with the patch; the 101 existing tests pass with the patch alone) before it was kept.\n")
 out.append("| Seeded change | What it needs to manifest | Reported by (time) | Also run, not reporting it | Note |")
 out.append("|---|---|---|---|---|")
@@ -83,6 +83,7 @@ out.append("""* `C01` (swap refunds surplus coins it had priced on): the swap ge
 * `C15b` (guard gets message-order deposits; the helper's signature changed): the harness no longer compiled -> every call of an internal helper sits behind its own cargo feature (`harness/src/direct.rs`) and `./check` rebuilds without a shim that does not compile; the system-level suite reports the change.
 * `C16b` (allow-list keyed by a case-normalised denom): all generated denoms were lower case -> unregistered look-alikes of a registered denom (upper case, capitalised, suffixed) in the asset universe.
 * `C17c` (slot test by rendered spelling instead of asset kind): no world held a native denom spelled like a cw20 contract address (F12 had excluded that spelling everywhere because of the router's route-shape map) -> factory-only worlds (C16, C17, C19) now hold such a denom in a quarter of the worlds with a token, and C17's re-registrations prefer it when the same-spelled token is paired.
+* `C12c` (the pair's simulation queries match the offered asset by rendered spelling): reported only because the history worlds had just been widened the same way for `C17c` (one world in eight of the non-route profiles names a native denom like the first cw20 token's address; half of those pair the two). That widening also exposed an error of the *harness* - `swap_events` identified the offered side from the event's display string - which raised false alarms for C01/C03/C06 on the unchanged tree until it was corrected to use the movement of the cw20 reserve.
 * own mutants of C13 / C14, see D.1.
 
 What the seeded changes taught about this technique here: the oracles were never the weak point (every miss was a *generator* blind spot: an input shape, an entry path, an operation kind or an identifier alphabet that was not produced), which is why the second round - asked to differ from the first - was as valuable as the first.
